@@ -407,6 +407,69 @@ def gen_random(scn, rng, depth, weights=None):
     return hist
 
 
+KINDS = ['Submit', 'RemoveApp', 'SetPrio', 'Move', 'Down', 'Up', 'Freeze', 'MarkUnschedule',
+         'RemoveServer', 'AddServer', 'Blacklist', 'Unblacklist', 'SetCount', 'DelGroup', 'Renew',
+         'Tick']
+
+
+def gen_tuples(scn, rng, length=4):
+    """Event-sequence coverage: a populated cell (submits + cycle), then a short
+    sequence whose event KINDS are drawn uniformly (not by weight), each
+    instantiated with arguments that are valid at that point, cycles sprinkled
+    in between.  Over a run this covers the ordered pairs/triples of event kinds
+    that weighted random histories reach only rarely."""
+    apps, hist = set(), []
+    servers = {s for s, i in scn['server_init'].items() if i}
+    allsrv = list(scn['server_init'])
+    allocs = list(scn['allocs'])
+    groups = list(scn.get('groups') or {})
+    for a in rng.sample(scn['apps'], rng.randrange(2, len(scn['apps']) + 1)):
+        apps.add(a)
+        hist.append(('Submit', [a, rng.randrange(len(scn['aprofiles'])) + 1]))
+    hist.append(('Cycle', []))
+    for _ in range(length):
+        k = rng.choice(KINDS)
+        free = [a for a in scn['apps'] if a not in apps]
+        if k == 'Submit' and free:
+            a = rng.choice(free)
+            apps.add(a)
+            hist.append(('Submit', [a, rng.randrange(len(scn['aprofiles'])) + 1]))
+        elif k == 'RemoveApp' and apps:
+            a = rng.choice(sorted(apps))
+            apps.discard(a)
+            hist.append(('RemoveApp', [a]))
+        elif k == 'SetPrio' and apps:
+            hist.append(('SetPrio', [rng.choice(sorted(apps)), rng.choice([0, 1, 5, 9, 50])]))
+        elif k == 'Move' and apps:
+            hist.append(('Move', [rng.choice(sorted(apps)), rng.choice(allocs)]))
+        elif k in ('Down', 'Up', 'Freeze') and servers:
+            hist.append((k, [rng.choice(sorted(servers))]))
+        elif k in ('MarkUnschedule', 'Blacklist', 'Unblacklist', 'Renew') and apps:
+            hist.append((k, [rng.choice(sorted(apps))]))
+            if k == 'Renew':
+                hist.append(('Cycle', []))
+        elif k == 'RemoveServer' and servers:
+            s = rng.choice(sorted(servers))
+            servers.discard(s)
+            hist.append(('RemoveServer', [s]))
+        elif k == 'AddServer' and len(servers) < len(allsrv):
+            s = rng.choice([x for x in allsrv if x not in servers])
+            servers.add(s)
+            hist.append(('AddServer', [s, rng.randrange(len(scn['sprofiles'])) + 1]))
+        elif k == 'SetCount' and groups:
+            hist.append(('SetCount', [rng.choice(groups), rng.randrange(0, 4)]))
+        elif k == 'DelGroup' and groups:
+            hist.append(('DelGroup', [rng.choice(groups)]))
+        elif k == 'Tick':
+            hist.append(('Tick', [rng.choice([1, 2, 3])]))
+        if rng.random() < 0.4:
+            hist.append(('Cycle', []))
+    hist.append(('Cycle', []))
+    if rng.random() < 0.3:
+        hist.append(('Cycle', []))
+    return hist
+
+
 # ---------------------------------------------------------------------------
 def record(scn_name, histories):
     scn = SCENARIOS[scn_name]
